@@ -1,11 +1,20 @@
 #!/bin/bash
-# Build the framework from files on disk only (offline) and warm the build caches.
+# Build the framework from files on disk only (offline) and warm the build caches
+# (plain, overlay and -race variants) so that the first check does not pay for them.
 set -u
 export GOFLAGS=-mod=mod GOPROXY=off GOSUMDB=off GOTOOLCHAIN=local
 V=/verif
 mkdir -p $V/.build/bin $V/evidence $V/replays
-cd $V/mc && go build -o $V/.build/bin/mc-plain ./cmd/mc || exit 1
-if [ -d $V/vinstr ]; then
-  (cd $V/vinstr && go build -o $V/.build/bin/vinstr .) || exit 1
-fi
+(cd $V/vinstr && go build -o $V/.build/bin/vinstr .) || { echo "setup: vinstr build failed"; exit 1; }
+cd $V/mc && go build -o $V/.build/bin/mc-plain ./cmd/mc || { echo "setup: mc build failed"; exit 1; }
+for variant in add full; do
+  ov=$(mktemp -d $V/.build/ov-setup.XXXXXX)
+  if $V/.build/bin/vinstr -mode $variant -repo /repo -out "$ov" >/dev/null 2>&1; then
+    go build -tags verif -overlay "$ov/overlay.json" -o $V/.build/bin/mc-$variant ./cmd/mc || echo "setup: mc-$variant build failed (checks will retry)"
+    if [ $variant = add ]; then
+      go build -race -tags verif -overlay "$ov/overlay.json" -o $V/.build/bin/racecomp ./cmd/racecomp || echo "setup: racecomp build failed (C12 will retry)"
+    fi
+  fi
+  rm -rf "$ov"
+done
 echo setup-ok
